@@ -358,6 +358,21 @@ def commuteReplay (p : Problem) (prof : Nat) (s : Solution) : List String := Id.
   let mut errs : List String := []
   let some pr := p.profiles[prof]? | return ["clustering profile is not defined"]
   for t in s.tours do
+    -- the vehicle moves from stop to stop (the crew walks inside a stop): cumulative stop distances are the matrix
+    -- distances between consecutive stops (vehicles of the clustering profile; distances are not scaled)
+    match p.findType t.vehicleId with
+    | some vt =>
+      if vt.profile == prof then
+        for (a, b) in t.stops.zip (t.stops.drop 1) do
+          match a.loc, b.loc with
+          | some la, some lb =>
+            match pr.dist[la * p.n + lb]? with
+            | some ds =>
+              if !near (b.distance - a.distance) ds then
+                errs := s!"{t.vehicleId}: stop at {lb} reports distance {b.distance}, the stop before ({la}) {a.distance}, routing data {la}->{lb}: {ds}" :: errs
+            | none => pure ()
+          | _, _ => pure ()
+    | none => pure ()
     for st in t.stops do
       for a in st.activities do
         let some here := (a.loc.orElse (fun _ => st.loc)) | continue
